@@ -198,6 +198,42 @@ def wrapper_intersect(tier):
         out.append(('weight-at-matching-row-and-column', ag.data.shape == want.shape and np.allclose(ag.data, want), dict(tag, got=ag.data.tolist())))
         out.append(('returned-cells-and-weights', list(idx) == cells and np.allclose(w, weights), tag))
         out.append(('sub-grid-corner', abs(ag.xllcorner - (-1.0 + 2.0 * c0)) < 1e-9 and abs(ag.yllcorner - (3.0 + 2.0 * (nr - 1 - max(rows)))) < 1e-9, tag))
+    # every catchment cell centre is handed to the kernel, also centres lying exactly on the outer edges of the intersecting grid
+    # (the kernel decides what is inside), for the plain and the filled area
+    fine = G.Grid('fd', 6, 6, cellsize=1.0, dtype=np.int64)
+    fine.data = np.full((6, 6), 4, dtype=np.int64)
+    for xll, yll in ((0.5, 3.5), (-0.5, 2.5), (2.5, 5.5)):
+        for filled in (False, True):
+            ca = G.Catchment('c', fine)
+            ca._idxcells_area = np.array([0, 7, 14], dtype=np.int64)
+            ca._idxcells_area_filled = np.array([0, 1, 7, 14], dtype=np.int64)
+            coarse = G.Grid('g', 2, 2, cellsize=2.0, xllcorner=xll, yllcorner=yll)
+            rec = Recorder({'intersect': lambda c: (c.raw_args[7].__setitem__(0, 1), 0)[1], 'cell2coord': lambda c: real.cell2coord(*c.raw_args),
+                            'cell2rowcol': lambda c: real.cell2rowcol(*c.raw_args)})
+            with patched_module(G, 'c_hydrodiy_gis', rec):
+                try:
+                    ca.intersect(coarse, filled=filled)
+                except Exception:
+                    pass
+            c = [c for c in rec.calls if c.name == 'intersect'][0]
+            want = np.array([[0.5, 5.5], [1.5, 5.5], [1.5, 4.5], [2.5, 3.5]]) if filled else np.array([[0.5, 5.5], [1.5, 4.5], [2.5, 3.5]])
+            out.append(('all-catchment-centres-reach-the-kernel', c.args[6].shape == want.shape and np.allclose(c.args[6], want),
+                        dict(xll=xll, yll=yll, filled=filled, got=c.args[6].tolist())))
+    # voronoi works on the catchment cells (not the hole-filled area) and returns the kernel's weights
+    ca = G.Catchment('c', fine)
+    ca._idxcells_area = np.array([0, 1, 2, 6, 8, 12, 13, 14], dtype=np.int64)
+    ca._idxcells_area_filled = np.array([0, 1, 2, 6, 7, 8, 12, 13, 14], dtype=np.int64)
+    pts = np.array([[0.5, 5.5], [2.5, 3.5]])
+
+    def vor(c):
+        c.raw_args[7][:] = [0.625, 0.375]
+        return 0
+    rec = Recorder({'voronoi': vor})
+    with patched_module(G, 'c_hydrodiy_gis', rec):
+        w = G.voronoi(ca, pts)
+    c = rec.calls[-1]
+    out.append(('voronoi-gets-the-catchment-cells', list(map(int, c.args[5])) == [0, 1, 2, 6, 8, 12, 13, 14], dict(got=list(map(int, c.args[5])))))
+    out.append(('voronoi-points-and-weights', np.array_equal(c.args[6], pts) and len(c.args[7]) == 2 and list(w) == [0.625, 0.375], {}))
     return out
 
 
